@@ -244,6 +244,13 @@ def classify_call(prog, f, c):
                 return True, "constant non-zero chunk size"
             return True, None
         # source of fixed size, or guarded by a length comparison
+        on_str = c.name in ("split_at", "split_at_mut") and ((c.self_ty or "") in ("str", "&str") or "str" == (c.self_ty or "").strip("&mut ") or "::str::" in (c.resolved or ""))
+        if on_str:
+            # str::split_at also panics when the index is not a char boundary: a byte-length check does not rule that out, only a
+            # dominating is_char_boundary / is_ascii test does
+            dom = f.dominators()[c.bb]
+            okb = any(x.name in ("is_char_boundary", "is_ascii") and x.bb in dom for x in f.live_calls())
+            return True, ("index checked to be a char boundary" if okb else None)
         for a in c.args:
             if "p" in a:
                 if len_checked(f, c.bb, a["p"][0]):
